@@ -23,4 +23,4 @@ def check(run):
     reflection_bounded(run)
     defaults_bounded(run)
     from checks.main import nodecross_bounded
-    nodecross_bounded(run)
+    nodecross_bounded(run, only=['Node.__attr_index', 'Node.has_attribute', 'Node.is_mapping', 'Node.is_sequence', 'Node.get_attribute', 'Node.remove_attribute', 'Node.rename_attribute', 'Node.is_empty', 'Node.make_mapping', 'Node.get_value', 'Node.seq_items'])
